@@ -113,8 +113,9 @@ def cases(draw, tier, user_passes=False):
         cand = cand or [g[0] for g in nl['gates']]
         old = cand[draw(st.integers(0, len(cand) - 1))]
         r = lambda x: '' if x == old else x
+        # (style 'mixed': the empty label is no identifier of the bench format, so no construction route through bench text)
         nl = dict(nl, inputs=[r(x) for x in nl['inputs']], outputs=[r(x) for x in nl['outputs']],
-                  gates=[[r(l), t, [r(o) for o in ops]] for l, t, ops in nl['gates']])
+                  gates=[[r(l), t, [r(o) for o in ops]] for l, t, ops in nl['gates']], style='mixed')
     return {'nl': nl, 'route': draw(gen.routes(nl)), 'spec': spec, 'reuse_instance': draw(st.booleans()),
             'hand': draw(st.sampled_from(['list', 'tuple', 'iter'])), 'warm': draw(st.integers(0, 3)) == 0}
 
